@@ -1786,11 +1786,62 @@ class Engine:
         except _NotConcrete:
             return None
 
+    def _comp_as_loop(self, fr, e, s, meth):
+        """a list / set comprehension over an iterable of unknown length, summarised like the loop
+        ``for <target> in <iter>: if <conds>: result.<meth>(<elt>)``: one symbolic iteration; client hooks see the same
+        events (on_loop_head, the add/append call, on_loop) as for the statement form.  The result is an opaque container."""
+        gen = e.generators[0]
+        shim = ast.copy_location(ast.For(target=gen.target, iter=gen.iter, body=[ast.copy_location(ast.Expr(value=e.elt), e)], orelse=[]), e)
+        shim._sa_func = getattr(e, "_sa_func", None)
+        result = Unk(self.fresh("comp"))
+        outs = []
+        saved = {n.id: s.env.get(n.id) for n in ast.walk(gen.target) if isinstance(n, ast.Name)}
+        for s1, it in self.eval(fr, gen.iter, s):
+            head = s1.copy()
+            head.epoch += 1
+            head = self.hooks.on_loop_head(self, fr, shim, head)
+            entered = self.assign(fr, gen.target, self._elem_of(it), head)
+            passed, skipped = list(entered), []
+            for cond in gen.ifs:
+                np_ = []
+                for s4 in passed:
+                    for s5, v in self.eval(fr, cond, s4):
+                        f = self.truth(v)
+                        np_.extend(assume(f, s5))
+                        skipped.extend(assume(f_not(f), s5))
+                passed = np_
+            back = []
+            for s4 in passed:
+                for s5, v in self.eval(fr, e.elt, s4):
+                    res = self.hooks.on_call(self, fr, shim, ("method", meth, result), [v], {}, s5)
+                    if res is None:
+                        back.append(s5)
+                    else:
+                        back.extend(st_ for st_, _v in (res if isinstance(res, list) else [(s5, res)]))
+            back.extend(skipped)
+            self.hooks.on_loop(self, fr, shim, {}, entered, back, [head], [])
+            after = s1.copy()
+            after.epoch += 1
+            for k, v in saved.items():
+                if v is None:
+                    after.env.pop(k, None)
+                else:
+                    after.env[k] = v
+            outs.append((after, result))
+        return outs
+
+    def e_SetComp(self, fr, e, s):
+        if len(e.generators) == 1 and not e.generators[0].is_async:
+            return self._comp_as_loop(fr, e, s, "add")
+        return [(s, Unk(self.fresh("expr:SetComp")))]
+
     def e_ListComp(self, fr, e, s):
         if not isinstance(e.elt, ast.AST) or any(g.is_async for g in e.generators):
             return [(s, Unk(self.fresh("expr:ListComp")))]
         saved = {g.target.id: s.env.get(g.target.id) for g in e.generators if isinstance(g.target, ast.Name)}
         accs = self._unroll_comp(fr, e, s)
+        if accs is None and len(e.generators) == 1:
+            return self._comp_as_loop(fr, e, s, "append")
         if accs is None:
             return [(s, Unk(self.fresh("expr:ListComp")))]
         out = []
